@@ -40,6 +40,10 @@ def rule_complete(chk):
     AT, AS, MT = p.fold_global(act, "ACTION_TYPE_FIELD"), p.fold_global(act, "ACTION_STATUS_FIELD"), p.fold_global(msg, "MESSAGE_TYPE_FIELD")
     chk.req(set(first) == {AT, AS, MT}, "C20.complete", "prettyprint._first_fields:type-and-status-first", "%s:1" % pp.relpath,
             good="first fields = %s" % first, fail="first fields are %s, expected the type/status fields" % first)
+    req = set(p.fold_global(pp, "REQUIRED_FIELDS"))
+    chk.req(req == {TS, UU, TL}, "C20.cli", "prettyprint.REQUIRED_FIELDS:the-three-header-fields", "%s:1" % pp.relpath,
+            good="a line is an Eliot message iff it has %s (exactly what the formatters subscript)" % sorted(req),
+            fail="REQUIRED_FIELDS is %s but the formatters subscript %s: a line lacking one of them aborts the command with KeyError" % (sorted(req), sorted([TS, UU, TL])))
     rt = ctx.func("prettyprint", "_render_timestamp")
     for q in ("pretty_format", "compact_format"):
         f = ctx.func("prettyprint", q)
